@@ -188,6 +188,7 @@ pub trait DynVec<F: Family> {
     fn clear(&mut self);
     fn get(&self, i: usize, at: bool);
     fn iter(&self, cs: &[EndTok]);
+    fn iter_clone(&self, pre: &[EndTok], post: &[EndTok]);
     fn drain(&mut self, r: Rng, typed: bool, eats: &[(EndTok, Sink)], fin: FinTok, env: &Env<F>);
     fn splice(&mut self, r: Rng, typed: bool, repl: &[Src], claim: i64,
               eats: &[(EndTok, Sink)], fin: FinTok, env: &Env<F>);
@@ -603,6 +604,27 @@ macro_rules! impl_kind {
                     match e {
                         Some(e) => out!("{}:{}", show_id(F::SIZE, e.as_bytes()), it.len()),
                         None => out!("N:{}", it.len()),
+                    }
+                }
+            }
+            fn iter_clone(&self, pre: &[EndTok], post: &[EndTok]) {
+                let mut it = self.v.iter();
+                out!("{}", it.len());
+                for c in pre {
+                    let e = match c { EndTok::F => it.next(), EndTok::B => it.next_back() };
+                    match e {
+                        Some(e) => out!("{}:{}", show_id(F::SIZE, e.as_bytes()), it.len()),
+                        None => out!("N:{}", it.len()),
+                    }
+                }
+                let mut it2 = it.clone();
+                drop(it);
+                out!("C:{}", it2.len());
+                for c in post {
+                    let e = match c { EndTok::F => it2.next(), EndTok::B => it2.next_back() };
+                    match e {
+                        Some(e) => out!("{}:{}", show_id(F::SIZE, e.as_bytes()), it2.len()),
+                        None => out!("N:{}", it2.len()),
                     }
                 }
             }
